@@ -231,7 +231,7 @@ def spec(fn=None, *, opaque=False):
     return deco(fn) if fn is not None else deco
 
 
-def lemma(fn=None, *, induct=None, uses=()):
+def lemma(fn=None, *, induct=None, hint=None):
     """an SMT lemma: the body returns a formula valid for all arguments (sorts from the
     annotations).  Proved once per run, by induction on the Int parameter `induct` when given
     (base: induct <= 0; step: the formula at induct-1 with the other arguments unchanged is the
